@@ -1,0 +1,24 @@
+//go:build verif
+
+// Contracts for the contract-based verification in /verif (comment-only file).
+
+package generic
+
+//@ import drkey "github.com/scionproto/scion/pkg/drkey"
+//@ import slayers "github.com/scionproto/scion/pkg/slayers"
+//@ import addr "github.com/scionproto/scion/pkg/addr"
+
+//@ # ---- C39, generic derivation input:
+//@ # [derivation type | protocol (2 bytes, big endian) | host address type (4 bits) | packed address | zero padding]
+//@ func (Deriver).serializeLevel2Input
+//@   props C39
+//@   requires len(input) >= 32
+//@   # the exported variable ZeroBlock still holds zeros
+//@   requires (drkey.ZeroBlock[0] == 0 && drkey.ZeroBlock[1] == 0 && drkey.ZeroBlock[2] == 0 && drkey.ZeroBlock[3] == 0 && drkey.ZeroBlock[4] == 0 && drkey.ZeroBlock[5] == 0 && drkey.ZeroBlock[6] == 0 && drkey.ZeroBlock[7] == 0 && drkey.ZeroBlock[8] == 0 && drkey.ZeroBlock[9] == 0 && drkey.ZeroBlock[10] == 0 && drkey.ZeroBlock[11] == 0 && drkey.ZeroBlock[12] == 0 && drkey.ZeroBlock[13] == 0 && drkey.ZeroBlock[14] == 0 && drkey.ZeroBlock[15] == 0)
+//@   modifies input[:]
+//@   let l = slayers.packedLen(host)
+//@   ensures (result1 == nil) == slayers.packedOK(host)
+//@   ensures result1 == nil ==> result0 == ite(l == 16, 32, 16)
+//@   ensures result1 == nil ==> input[0] == uint8(derType) && input[1] == uint8(uint16(proto)>>8) && input[2] == uint8(uint16(proto)) && input[3] == uint8(slayers.packedType(host)) & 0xF
+//@   ensures result1 == nil ==> forall j int :: 0 <= j && j < l ==> input[4+j] == slayers.packedByte(host, j)
+//@   ensures result1 == nil ==> forall k int :: 4 + l <= k && k < result0 ==> input[k] == 0
